@@ -64,10 +64,13 @@ theorem serverHello_roundTrip {typ : Nat} (htyp : typ = 2 ∨ typ = 6) :
 
 /-! ### the variant lists resolve as intended (decided on the regenerated lists) -/
 
-example : resolve Gen.extVariantsClient 10 = some "TlsExtensionEllipticCurves" := by decide +kernel
-example : resolve Gen.extVariantsServer 10 = some "TlsExtensionUnparsed" := by decide +kernel
-example : resolve Gen.extVariantsClient 11 = some "TlsExtensionECPointFormats" := by decide +kernel
-example : resolve Gen.extVariantsServer 43 = some "TlsExtensionSupportedVersionsServer" := by decide +kernel
+example : resolve Gen.extVariantsClient 10 4 = some "TlsExtensionEllipticCurves" := by decide +kernel
+example : resolve Gen.extVariantsServer 10 4 = some "TlsExtensionUnparsed" := by decide +kernel
+example : resolve Gen.extVariantsClient 11 2 = some "TlsExtensionECPointFormats" := by decide +kernel
+example : resolve Gen.extVariantsServer 43 2 = some "TlsExtensionSupportedVersionsServer" := by decide +kernel
+-- key_share on the server side: the two-byte HelloRetryRequest form first, any other length the ServerHello form
+example : resolve Gen.extVariantsServer 51 2 = some "TlsExtensionKeyShareClientHelloRetry" := by decide +kernel
+example : resolve Gen.extVariantsServer 51 36 = some "TlsExtensionKeyShareServer" := by decide +kernel
 example : scsvFallback ∉ Gen.TlsCipherSuite.codes ∧ scsvRenegotiation ∉ Gen.TlsCipherSuite.codes ∧
     scsvFallback ≠ scsvRenegotiation := by decide +kernel
 
